@@ -208,11 +208,12 @@ def Attr.at (a : Attr) (r c : Nat) : Except Err (Option String) :=
 
 /-! ## the document, `collect_document_colors` -/
 
-/-- a component that carries colours.  Text components use the first two fields only. -/
+/-- a component that carries colours.  Title, subline, page header and page footer use the first two fields only. -/
 structure Comp where
   textColor : Attr := .none
   bgColor : Attr := .none
-  /-- `border_color_left/right/top/bottom/first/last` (bodies only are collected) -/
+  /-- `border_color_left/right/top/bottom/first/last` of a table component (body, footnote, source, column header);
+  all of them are collected (repo fix: formerly the body's only) -/
   borderColors : List Attr := []
   deriving Repr
 
@@ -231,11 +232,12 @@ def dedup : List String → List String
   | [] => []
   | x :: xs => x :: (dedup xs).filter (· != x)
 
-/-- the strings `extract_colors_from_attribute` is called on, in the order of the calls -/
+/-- the strings `extract_colors_from_attribute` is called on, in the order of the calls: per component its text colour,
+background colour and (table components: body, footnote, source, column headers) the six border colours -/
 def Doc.allColors (d : Doc) : List String :=
   (d.bodies.flatMap fun b => b.textColor.colors ++ b.bgColor.colors ++ b.borderColors.flatMap Attr.colors)
-  ++ (d.texts.flatMap fun t => t.textColor.colors ++ t.bgColor.colors)
-  ++ (d.headers.flatMap fun h => h.textColor.colors ++ h.bgColor.colors)
+  ++ (d.texts.flatMap fun t => t.textColor.colors ++ t.bgColor.colors ++ t.borderColors.flatMap Attr.colors)
+  ++ (d.headers.flatMap fun h => h.textColor.colors ++ h.bgColor.colors ++ h.borderColors.flatMap Attr.colors)
 
 /-- `collect_document_colors` up to the enumeration order of the set -/
 def collect (d : Doc) : List String := dedup d.allColors
